@@ -4,6 +4,11 @@
 //!   kind 1: Bitstring::random(n)   2: Bitstring::random_with_probability(n, 1/2)   3: Plushy of n genes
 //!   kind 4: population of n individuals (genome generator + scorer)
 //!        observation [[length, all elements drawn from the element generator (0/1)]] (one entry per draw, tallied)
+//!   kind 9: collection of n ZERO-SIZED elements   [9, n]   (observation as for kinds 0..4)
+//!   kind 7: uniform choice over a source of `members` zero-sized members (2^32 and more cost nothing)  [7, flavour, members]
+//!        observation [-7] | [num_choices, []]
+//!   kind 8: owning uniform choice over `members` u8 members, member i = i mod m   [8, members, m]   (4 GiB for 2^32 members)
+//!        observation [num_choices, [[value, count]...]]
 //!   kind 5: uniform choice: [5, flavour, source values]
 //!        observation [-7] (EmptySlice) | [num_choices, [[value, count]...]]
 use std::collections::BTreeMap;
@@ -117,6 +122,54 @@ fn run(input: &Tree) -> Option<Tree> {
     if kind == 5 {
         return choice(p.get(1)?.usize()?, &v64(p.get(2)?)?, n, &mut rng, &|v| v);
     }
+    if kind == 7 {
+        let fl = p.get(1)?.usize()?;
+        let members = p.get(2)?.usize()?;
+        if p.len() != 3 || members > (1usize << 36) {
+            return None;
+        }
+        let src: Vec<()> = vec![(); members];
+        macro_rules! zres {
+            ($r:expr) => {
+                match $r {
+                    Ok(d) => {
+                        for _ in 0..n.min(8) {
+                            let _ = d.sample(&mut rng);
+                        }
+                        tl![a(d.num_choices().get() as i128), L(vec![])]
+                    }
+                    Err(_) => tl![A(-7)],
+                }
+            };
+        }
+        return Some(match fl {
+            0 => zres!(IntoDistribution::<()>::into_distribution(src)),
+            1 => zres!(IntoDistribution::<&()>::into_distribution(&src)),
+            2 => zres!(IntoDistribution::<()>::into_distribution(&src)),
+            3 => zres!(ToDistribution::<()>::to_distribution(&src)),
+            10 => zres!(IntoDistribution::<&()>::into_distribution(&src[..])),
+            11 => zres!(IntoDistribution::<()>::into_distribution(&src[..])),
+            _ => return None,
+        });
+    }
+    if kind == 8 {
+        let members = p.get(1)?.usize()?;
+        let m = p.get(2)?.usize()?;
+        if p.len() != 3 || !(1..=251).contains(&m) || members == 0 || members > (1usize << 33) {
+            return None;
+        }
+        let src: Vec<u8> = (0..members).map(|i| (i % m) as u8).collect();
+        return Some(match IntoDistribution::<u8>::into_distribution(src) {
+            Ok(d) => {
+                let mut h: BTreeMap<i64, u64> = BTreeMap::new();
+                for _ in 0..n {
+                    *h.entry(i64::from(d.sample(&mut rng))).or_insert(0) += 1;
+                }
+                tl![a(d.num_choices().get() as i128), L(h.into_iter().map(|(v, k)| tl![a(v), a(k)]).collect())]
+            }
+            Err(_) => tl![A(-7)],
+        });
+    }
     if kind == 6 {
         // a source of `members` members 0..members-1 (millions), tallied by residue class of the value
         let fl = p.get(1)?.usize()?;
@@ -153,6 +206,17 @@ fn run(input: &Tree) -> Option<Tree> {
                 let pop: Vec<EcIndividual<Vec<i64>, TestResults<Score<i64>>>> = ig.into_collection_generator(size).sample(&mut rng);
                 let ok = pop.iter().all(|i| i.genome.len() == 3 && i.genome.iter().all(|x| alpha.contains(x)) && i.test_results.total_result.0 == i.genome.iter().sum::<i64>());
                 (pop.len(), ok)
+            }
+            9 => {
+                // zero-sized elements: `Vec<()>` reports an unbounded capacity
+                struct Unit;
+                impl Distribution<()> for Unit {
+                    fn sample<R: rand::Rng + ?Sized>(&self, rng: &mut R) {
+                        let _ = rng.next_u32();
+                    }
+                }
+                let v: Vec<()> = Unit.into_collection_generator(size).sample(&mut rng);
+                (v.len(), true)
             }
             _ => return None,
         };
@@ -199,6 +263,26 @@ fn gen(tier: &str, rng: &mut Sm) -> Gen {
             }
         }
     }
+    // zero-sized elements and members
+    for size in [0usize, 1, 5, 1000] {
+        g.inputs.push(tl![a(rng.next() >> 1), au(5), tl![A(9), au(size), tv(&[])]]);
+    }
+    for members in [0usize, 1, 7, (1 << 32) - 1, 1 << 32, (1 << 32) + 1, 1 << 33] {
+        for fl in [0usize, 1, 2, 3, 10, 11] {
+            g.inputs.push(tl![a(rng.next() >> 1), au(4), tl![A(7), au(fl), au(members)]]);
+        }
+    }
+    // mid-sized sources (per-member frequencies need more draws): a byte-sized index would not be uniform here
+    for members in [100usize, 192, 255, 257] {
+        let src: Vec<i64> = (0..members as i64).collect();
+        for fl in [0usize, 2, 3, 1, 10] {
+            g.inputs.push(tl![a(rng.next() >> 1), au(n * 15), tl![A(5), au(fl), tv(&src)]]);
+        }
+    }
+    if thorough {
+        // 2^32 + 2 one-byte members (4 GiB): the index must not be truncated to 32 bits
+        g.inputs.push(tl![a(rng.next() >> 1), au(2000), tl![A(8), au((1usize << 32) + 2), au(251)]]);
+    }
     // sources of millions of members (every Vec / slice flavour), judged by residue classes of the index
     for (members, m) in [(3i64 << 23, 3i64), (1 << 25, 2), ((1 << 24) + 1, 5)] {
         for fl in [0usize, 1, 2, 3, 4, 10, 11, 12, 13] {
@@ -208,6 +292,6 @@ fn gen(tier: &str, rng: &mut Sm) -> Gen {
             g.inputs.push(tl![a(rng.next() >> 1), au(n), tl![A(6), au(fl), a(members), a(m)]]);
         }
     }
-    g.meta("generator", "collection generators (Vec, Bitstring x2, Plushy, population of scored individuals) at sizes 0, 1, 2, 17, 1000; uniform choice in 15 conversion flavours (Vec / array / slice x owning / borrowing / cloning x into / to, and the macro) over empty and non-empty sources of 1..6 members, with duplicates; sources of 3*2^23, 2^25 and 2^24+1 members judged by residue classes of the chosen index");
+    g.meta("generator", "collection generators (Vec, Bitstring x2, Plushy, population of scored individuals) at sizes 0, 1, 2, 17, 1000; uniform choice in 15 conversion flavours (Vec / array / slice x owning / borrowing / cloning x into / to, and the macro) over empty and non-empty sources of 1..6 members, with duplicates; sources of 3*2^23, 2^25 and 2^24+1 members judged by residue classes of the chosen index; zero-sized elements; sources of 2^32-1 .. 2^33 zero-sized members (num_choices, no rejection); sources of 100..257 members with 15x the draws");
     g
 }
